@@ -117,6 +117,92 @@ def weights_scenario(target, kernel_attr, use_bias, scale, depthwise):
   return scenario
 
 
+def unfold_scenario(kind, use_bias):
+  """unfold_model on [folded layer, plain layer]: Keras clone_model is replaced by its contract (applies clone_function to
+  every layer, keeps the order).  The folded layer must become the plain quantized layer with the SAME quantizers and
+  hyper-parameters, use_bias forced on, and receive exactly get_folded_weights(); other layers are rebuilt from their
+  config and receive their own weights."""
+  def scenario(ip):
+    from . import c13
+    s = Scen()
+    bu = ip.get_module("qkeras.bn_folding_utils")
+    ip.overrides["qkeras.quantizers::get_quantizer"] = c13.gq_contract
+    ip.overrides["qkeras.qlayers::get_auto_range_constraint_initializer"] = lambda ip_, fv, a, k: (a[1], a[2])
+    ip.term_hooks = {"get_config": lambda ip_, recv, a, k: dict(recv.kw) if isinstance(recv, Term) else {},
+                     "numpy": lambda ip_, recv, a, k: recv}
+    if kind == "conv":
+      modname, cname, plain, wq = "qkeras.qconv2d_batchnorm", "QConv2DBatchnorm", "QConv2D", "kernel_quantizer"
+    else:
+      modname, cname, plain, wq = ("qkeras.qdepthwiseconv2d_batchnorm", "QDepthwiseConv2DBatchnorm", "QDepthwiseConv2D",
+                                   "depthwise_quantizer")
+    cls = ip.get_module(modname).env.vars[cname]
+    init, _ = cls.lookup("__init__")
+    params = [a.arg for a in init.node.args.args[1:]]
+    kw = {}
+    for p_ in params:
+      if p_ == "use_bias":
+        kw[p_] = use_bias
+      elif p_ in c13.CONCRETE:
+        kw[p_] = c13.CONCRETE[p_]
+      elif p_.endswith("_quantizer"):
+        kw[p_] = Obj(ExtClass("quantizer"), {"name": "q_" + p_}, label="q_" + p_)
+      else:
+        kw[p_] = Term("v:" + p_)
+    kw["name"] = Term("v:name")
+    r = run_call(ip, cls, [], kw)
+    s.claim("constructs", r[0] == "return")
+    if r[0] != "return":
+      s.info["raised"] = str(r[1])
+      return s
+    folded = r[1]
+    fw = [Term("folded_kernel"), Term("folded_bias")]
+    ip.setattr(folded, "get_folded_weights", Builtin("get_folded_weights", lambda ip_: list(fw)))
+    in0 = Term("in_shape0") if kind == "conv" else (None, 8, 8, 3)     # QDepthwiseConv2D.build inspects the shape
+    ip.setattr(folded, "input_shape", in0)
+    dense_cls = ip.get_module("qkeras.qlayers").env.vars["QDense"]
+    other = ip.call(dense_cls, [], {"units": Term("v:units"),
+                                    "kernel_quantizer": Obj(ExtClass("quantizer"), {"name": "qk"}, label="qk"),
+                                    "name": Term("v:dense")})
+    ip.setattr(other, "input_shape", Term("in_shape1"))
+    ip.setattr(other, "get_weights", Builtin("get_weights", lambda ip_: Term("dense_weights")))
+    model = Obj(ExtClass("Model"), {"layers": [folded, other], "input_shape": (None, Term("h"), Term("w"), Term("c"))})
+
+    def clone_contract(ip_, m, input_tensors=None, clone_function=None):
+      new = [ip_.call(clone_function, [l], {}) for l in ip_.getattr(m, "layers")]
+      return Obj(ExtClass("Model"), {"layers": new})
+    ip.setattr(bu, "clone_model", Builtin("clone_model", clone_contract))
+    ip.setattr(bu, "Input", Builtin("Input", lambda ip_, shape=None, **k: Term("Input", (shape,))))
+    r = run_call(ip, bu.env.vars["unfold_model"], [model])
+    s.claim("no_raise", r[0] == "return")
+    if r[0] != "return":
+      s.info["raised"] = str(r[1])
+      return s
+    new_layers = ip.getattr(r[1], "layers")
+    n0, n1 = new_layers[0], new_layers[1]
+    plain_cls = ip.get_module("qkeras.qconvolutional").env.vars[plain]
+    s.claim("becomes_plain_layer", isinstance(n0, Obj) and n0.cls is plain_cls)
+    if not (isinstance(n0, Obj) and n0.cls is plain_cls):
+      return s
+    same = lambda a: c13.same_val(n0.attrs.get(a), folded.attrs.get(a))
+    for a in (wq, wq + "_internal", "bias_quantizer", "bias_quantizer_internal", "activation", "strides", "padding",
+              "dilation_rate", "kernel_size", "data_format") + (("filters",) if kind == "conv" else ("depth_multiplier",)):
+      if a in folded.attrs:
+        s.claim("keeps_" + a, same(a))
+    s.claim("bias_forced_on", n0.attrs.get("use_bias") is True)
+    calls0 = n0.attrs.get("__calls__", [])
+    sets0 = [a for n_, a in calls0 if n_ == "set_weights"]
+    s.claim("folded_weights_installed", len(sets0) == 1 and list(sets0[0][0]) == fw)
+    if kind == "conv":
+      s.claim("built_on_source_shape", [a for n_, a in calls0 if n_ == "build"] == [(in0,)])
+    s.claim("other_layer_rebuilt", isinstance(n1, Obj) and n1.cls is dense_cls and n1 is not other and
+            c13.same_val(n1.attrs.get("kernel_quantizer_internal"), other.attrs.get("kernel_quantizer_internal")) and
+            c13.same_val(n1.attrs.get("units"), other.attrs.get("units")))
+    sets1 = [a for n_, a in n1.attrs.get("__calls__", []) if n_ == "set_weights"] if isinstance(n1, Obj) else []
+    s.claim("other_layer_weights_copied", sets1 == [(Term("dense_weights"),)])
+    return s
+  return scenario
+
+
 def cases(tier):
   out = []
   layers = [("qkeras/qconv2d_batchnorm.py::QConv2DBatchnorm", "kernel", False),
@@ -133,4 +219,10 @@ def cases(tier):
       for sc in (True, False):
         out.append(Case(PROP, target + ".get_folded_weights", "bias%d_scale%d" % (ub, sc),
                         weights_scenario(target, kattr, ub, sc, dw), replay_kind=None, assumptions=ASSUME, term_mode=True))
+  for kind in ("conv", "depthwise"):
+    for ub in (True, False):
+      out.append(Case(PROP, "qkeras/bn_folding_utils.py::unfold_model", "%s_bias%d" % (kind, ub), unfold_scenario(kind, ub),
+                      replay_kind=None, term_mode=True,
+                      assumptions=ASSUME + ["K2: clone_model applies clone_function to every layer and keeps their order",
+                                            "K1: Keras base constructors store / report their keyword arguments; build and set_weights of the new layers are recorded"]))
   return out
